@@ -223,6 +223,30 @@ class Fresh:
                 pv = (False, False, str(v[0]))
             cf, ef = cf and pv[0], ef and pv[1]
             why.append("%s := %s" % (name, pv[2]))
+        if cf and not ef and at_stmt is not None:
+            # every slot overwritten: `for i in range(len(L)): L[i] = <fresh>` between the definition and the use replaces all the
+            # elements the container started with (it is the comprehension `[<fresh> for i in range(len(L))]` written in place)
+            for lp in body_nodes(self.node):
+                if not (isinstance(lp, ast.For) and isinstance(lp.target, ast.Name) and not lp.orelse and isinstance(lp.iter, ast.Call) and norm(lp.iter.func) == "range"
+                        and len(lp.iter.args) == 1 and norm(lp.iter.args[0]) == "len(%s)" % name):
+                    continue
+                if not all(self._pos(st) < self._pos(lp) for _v, st in cands) or not self._pos(lp) < self._pos(at_stmt) or not struct_dominates(self.paths, lp, at_stmt):
+                    continue
+                if any(at_stmt is x for b in lp.body for x in ast.walk(b)):
+                    continue
+                iv_ = lp.target.id
+                if any(isinstance(x, ast.Name) and x.id == iv_ and isinstance(x.ctx, ast.Store) for b in lp.body for x in ast.walk(b)) or \
+                        any(isinstance(x, (ast.Break, ast.Return)) for b in lp.body for x in ast.walk(b)):
+                    continue
+                for st in lp.body:
+                    if isinstance(st, ast.Assign) and len(st.targets) == 1 and isinstance(st.targets[0], ast.Subscript) and norm(st.targets[0].value) == name and norm(st.targets[0].slice) == iv_:
+                        pv = self.prov(st.value, st, depth + 1, seen | {name})
+                        if pv[0]:
+                            ef = True
+                            why.append("every slot of %s replaced by %s" % (name, pv[2]))
+                        break
+                if ef:
+                    break
         if ef:
             # what is put into the container later is part of its elements
             for n in body_nodes(self.node):
